@@ -122,11 +122,13 @@ class NodeSim(object):
         self.registry = {}
         self.by_gen = {}         # (instance, gen) -> container name
         self.flagged = set()     # containers with exitinfo / aborted / oom
+        self.dead = set()        # containers whose tombstone was handled
         self.handed = set()      # containers ever seen behind a cleanup link
         self.pending_tomb = {}   # instance -> container awaiting its tombstone
         self.two_generations = False
         self.sync_with_cleanup = False
         self.replaced_backlog = False
+        self.late_created_flagless = False
         self.n_syncs = 0
         self._saved = []
 
@@ -276,11 +278,15 @@ class NodeSim(object):
     def _check_not_restarted(self, before, ctx):
         """A finished / aborted / oom container is never started again."""
         for inst, cont in sorted(self.links('running').items()):
-            if cont in self.flagged and before.get(inst) != cont:
+            if (cont in self.flagged or cont in self.dead) and \
+                    before.get(inst) != cont:
                 raise Violation(
                     'c13.restart.finished-restarted.%s' % ctx,
-                    '%s finished/aborted/oom and was linked into running '
-                    'again; %s' % (self._tag(cont), self._describe()))
+                    '%s %s and was linked into running again; %s' % (
+                        self._tag(cont),
+                        'finished/aborted/oom' if cont in self.flagged
+                        else 'died (tombstone handled, no flag file)',
+                        self._describe()))
 
     def _check_kept(self, before, ctx):
         """A running container whose manifest is unchanged is left running."""
@@ -477,6 +483,16 @@ class NodeSim(object):
         handler = {'C': self.mgr._on_created,    # pylint: disable=W0212
                    'D': self.mgr._on_deleted,    # pylint: disable=W0212
                    'M': self.mgr._on_modified}[kind]   # pylint: disable=W0212
+        if kind == 'C' and name != READY and active_before and \
+                name not in running_before:
+            # created event of an entry whose container a synchronisation
+            # already configured and which died since
+            entry = self.cache().get(name)
+            cur = self.by_gen.get((name, entry['gen'])) if entry else None
+            if cur in self.dead and os.path.isdir(self._p('apps', cur)):
+                self.stats.count('late_created_event_on_dead_container')
+                if cur not in self.flagged:
+                    self.late_created_flagless = True
         handler(path)
         self.stats.count('event:' + kind)
         # what the manager itself removed from the cache is seen by inotify
@@ -498,18 +514,31 @@ class NodeSim(object):
             self._check_after_delete(name, running_before)
 
     def _flag(self, cont, kind):
-        if kind == 'pid1':
-            return      # written by the monitor action itself (signal 6)
+        if kind in ('pid1', 'killed'):
+            # pid1: 'aborted' is written by the monitor action itself
+            # (signal 6).  killed: the container's supervised process died of
+            # another signal; nothing writes exitinfo (MonitorContainerDown,
+            # service exits only), aborted (SIGABRT only) or oom (cgroup
+            # service only), so no flag file exists.
+            return
         with open(self._p('apps', cont, 'data', kind), 'w'):
             pass
         self.flagged.add(cont)
 
     def _tombstone(self, inst, kind):
+        cont = self.links('running').get(inst)
         action = monitor.MonitorContainerCleanup(self.mgr.tm_env)
         action.execute({
-            'id': inst, 'signal': 6 if kind == 'pid1' else 0,
+            'id': inst,
+            'signal': {'pid1': 6, 'killed': 9}.get(kind, 0),
             'return_code': 0, 'timestamp': 1.0,
         })
+        if cont is not None:
+            self.dead.add(cont)
+            if kind == 'pid1':
+                self.flagged.add(cont)
+            if cont not in self.flagged:
+                self.stats.count('flagless_deaths')
 
     def op_finish(self, idx, kind):
         inst = INSTANCES[idx % len(INSTANCES)]
@@ -517,8 +546,6 @@ class NodeSim(object):
         if cont is None or not os.path.isdir(self._p('apps', cont)):
             return False
         self._flag(cont, kind)
-        if kind == 'pid1':
-            self.flagged.add(cont)
         self.pending_tomb.pop(inst, None)
         self._tombstone(inst, kind)
         self._check_links('monitor')
@@ -531,18 +558,18 @@ class NodeSim(object):
                 or kind == 'pid1':
             return False
         self._flag(cont, kind)
-        self.pending_tomb[inst] = cont
+        self.pending_tomb[inst] = [cont, kind]
         return True
 
     def op_tomb(self, idx):
         inst = INSTANCES[idx % len(INSTANCES)]
-        cont = self.pending_tomb.pop(inst, None)
+        cont, kind = self.pending_tomb.pop(inst, None) or (None, None)
         if cont is None:
             return False
         if self.links('running').get(inst) != cont:
             self.stats.count('tombstone_dropped')
             return False
-        self._tombstone(inst, 'exitinfo')
+        self._tombstone(inst, kind)
         self._check_links('monitor')
         return True
 
@@ -557,6 +584,7 @@ class NodeSim(object):
             # nothing on disk remembers this container any more: a later
             # directory of the same name is a new container
             self.flagged.discard(cont)
+            self.dead.discard(cont)
             self.handed.discard(cont)
         if os.path.lexists(self._p('cleanup', name)):
             raise HarnessError('cleanup link survived Cleanup.invoke')
@@ -573,6 +601,15 @@ class NodeSim(object):
                 fs.rm_safe(self._p(which, name))
         fs.rm_safe(self._p('cache', READY))
         self.pending_tomb.clear()
+        # The reboot killed every container without leaving a flag file; a
+        # container that had been killed shortly before is in exactly the
+        # same state on disk (no flag, no link).  Restarting those whose cache
+        # entry is still there is what _synchronize is meant to do ("Added
+        # existing app"), so only flag files survive a reboot as "finished".
+        for cont in sorted(self.dead - self.flagged):
+            self.stats.count('flagless_dead_forgotten_at_reboot')
+        self.dead &= self.flagged
+        self.handed.clear()
         self._new_manager()
         return True
 
@@ -596,6 +633,8 @@ def run_case(case, stats):
             stats.count('class:two-generations-on-disk')
         if sim.sync_with_cleanup:
             stats.count('class:sync-while-cleanup-outstanding')
+        if sim.late_created_flagless:
+            stats.count('class:late-created-event-on-flagless-dead-container')
         if sim.replaced_backlog:
             stats.count('class:replaced-while-running-delete-still-queued')
         if sim.n_syncs >= 2:
